@@ -296,7 +296,11 @@ class DPTStructIntMixin:
         """Serialize to KNX/IP raw data."""
         try:
             knx_value = int(value)
-            if not (cls.value_min <= knx_value <= cls.value_max):
+            if not (cls.value_min <= knx_value <= cls.value_max) or (
+                # int() truncates towards zero - a fraction beyond a limit is out of range
+                isinstance(value, float)
+                and not (cls.value_min <= value <= cls.value_max)
+            ):
                 raise ValueError
             return DPTArray(struct.pack(cls._struct_format, knx_value))
         except (ValueError, OverflowError, struct.error) as err:
